@@ -15,6 +15,8 @@
 -/
 import GraphiqModel.Proofs.Tableau
 import GraphiqModel.Proofs.TabSpecFactor
+import GraphiqModel.Proofs.HilbertTab
+import GraphiqModel.Proofs.HilbertKron
 namespace Graphiq.C07
 open Graphiq Graphiq.PRow Graphiq.Tab
 
@@ -627,5 +629,285 @@ example : ghz3.pivot 0 = some 3 := by decide          -- a Z measurement of qubi
 example : (ghz3.hGate 0).pivot 1 = some 3 := by decide
 example : (match ghz3.runOps [.h 0, .cnot 0 2, .meas 1 true, .insert 2, .resetY 0 true false, .swap 1 3, .remove 0 true] with
     | .ok t' => t'.n == 3 && t'.isSymplectic | .error _ => false) = true := by decide +kernel
+
+end Graphiq.C07
+
+/-! ## 6. Hilbert-space reading: the Pauli-group semantics above IS the matrix semantics, for every n
+
+  `Hilbert.pauliMat n p` is the `2^n × 2^n` complex matrix of the signed row `p = i^ip (-1)^r ⊗_j σ(x_j,z_j)`
+  (σ(1,1) = Y = [[0,-i],[i,0]]) in the computational basis, indexed by bit strings (bit `j` = qubit `j`, i.e. qubit 0 is
+  the left-most factor of graphiq's `np.kron` chains).  `Hilbert.gateMat n g` is the unitary of a gate, built from the 2×2
+  matrices of `graphiq/backends/density_matrix/functions.py` exactly as `get_one_qubit_gate` /
+  `get_two_qubit_controlled_gate` build them (H carries `1/√2`).  `Hilbert.rho n T = ∏_i (1 + P_i)/2` is the density
+  matrix of a stabilizer tableau.  The theorems of this section turn the "cited tensor-lifting fact" of §1 into
+  theorems: `row_sum`/`g_function` is matrix multiplication, the symplectic form is the commutation bit, every tableau
+  update rule is conjugation by the gate's unitary (signs included), and the stabilizer state transforms covariantly,
+  is a projector fixed by its whole group, and does not depend on the choice of generators. -/
+
+namespace Graphiq.C07
+open Graphiq Graphiq.PRow Graphiq.Tab Graphiq.Hilbert Matrix
+
+/-- **`row_sum` is matrix multiplication.**  The matrix of the model's signed row product (`PRow.mul n a b` =
+    `row_sum(row_to_add = a, target_row = b)` with the `g_function` exponent, reduced mod 4 and decoded into the two
+    phase bits) is the product of the matrices, in this order, for every number of qubits. -/
+theorem pauli_product_is_matrix_product (n : Nat) (a b : PRow) :
+    pauliMat n (PRow.mul n a b) = pauliMat n a * pauliMat n b := pauliMat_mul n a b
+
+/-- the matrices are the textbook ones: identity; `Z_q` diagonal with `(-1)^(b_q)`; `X_q` the bit flip at `q`;
+    `Y_q = [[0,-i],[i,0]]` at `q`; a sign bit is the scalar `-1` -/
+theorem pauli_matrix_is_textbook (n q : Nat) (hq : q < n) (s : Bool) (a b : Bits n) :
+    pauliMat n PRow.one = 1 ∧
+    pauliMat n (Zq q s) a b = (if a = b then (if xor s (bx b q) then (-1 : ℂ) else 1) else 0) ∧
+    pauliMat n (Xq q s) a b = (if a = Hilbert.flip (unitMask q) b then (if s then (-1 : ℂ) else 1) else 0) ∧
+    pauliMat n (Yq q s) a b
+      = (if a = Hilbert.flip (unitMask q) b then (if xor s (bx b q) then -Complex.I else Complex.I) else 0) :=
+  ⟨pauliMat_one n, pauliMat_Zq_apply n q s hq a b, pauliMat_Xq_apply n q s a b, pauliMat_Yq_apply n q s hq a b⟩
+
+/-- the two phase bits are the scalar `i^(2r + ip)`; the adjoint is the matrix of the adjoint row; rows without
+    imaginary phase are Hermitian involutions, rows with imaginary phase square to `-1`; every row is unitary -/
+theorem pauli_matrix_phase_adjoint_square (n : Nat) (p : PRow) :
+    pauliMat n p = iPow p.ph • pauliMat n (bare p) ∧
+    (pauliMat n p)ᴴ = pauliMat n (adj p) ∧
+    pauliMat n p * (pauliMat n p)ᴴ = 1 ∧
+    (p.ip = false → (pauliMat n p)ᴴ = pauliMat n p ∧ pauliMat n p * pauliMat n p = 1) ∧
+    (p.ip = true → pauliMat n p * pauliMat n p = -1) :=
+  ⟨pauliMat_phase n p, pauliMat_conjTranspose n p, pauliMat_mul_conjTranspose n p,
+   fun h => ⟨pauliMat_hermitian n p h, pauliMat_sq n p h⟩, pauliMat_sq_imag n p⟩
+
+/-- **the symplectic form is the commutation bit**: two rows anticommute in the model iff their matrices
+    anticommute, and commute iff the matrices commute -/
+theorem commutation_bit_is_matrix_commutation (n : Nat) (a b : PRow) :
+    (sp n a b = true ↔ pauliMat n a * pauliMat n b = -(pauliMat n b * pauliMat n a)) ∧
+    (sp n a b = false ↔ pauliMat n a * pauliMat n b = pauliMat n b * pauliMat n a) :=
+  ⟨pauliMat_anticomm_iff n a b, pauliMat_comm_iff n a b⟩
+
+/-- the gate matrices are assembled as in graphiq's density-matrix backend: a 2×2 matrix at one site
+    (`get_one_qubit_gate`), `hadamard() = [[1,1],[1,-1]]/√2`, `phase() = diag(1,i)`, `phase_dag() = diag(1,-i)`, the
+    Pauli matrices, and controlled-X / controlled-Z (`get_two_qubit_controlled_gate`) -/
+theorem gate_matrices_are_graphiq_matrices (n q c t : Nat) :
+    gateMat n (.H q) = invSqrt2 • oneQ n q hadM ∧ gateMat n (.P q) = oneQ n q phaseM ∧
+    gateMat n (.Pdag q) = oneQ n q phaseDagM ∧ gateMat n (.X q) = oneQ n q sigmaX ∧
+    gateMat n (.Y q) = oneQ n q sigmaY ∧ gateMat n (.Z q) = oneQ n q sigmaZ ∧ gateMat n (.I q) = 1 ∧
+    gateMat n (.CNOT c t) = ctrlQ n c t sigmaX ∧ gateMat n (.CZ c t) = ctrlQ n c t sigmaZ ∧
+    invSqrt2 * invSqrt2 = 1 / 2 ∧
+    (hadM false false = 1 ∧ hadM false true = 1 ∧ hadM true false = 1 ∧ hadM true true = -1) ∧
+    (phaseM false false = 1 ∧ phaseM false true = 0 ∧ phaseM true false = 0 ∧ phaseM true true = Complex.I) ∧
+    (phaseDagM false false = 1 ∧ phaseDagM false true = 0 ∧ phaseDagM true false = 0 ∧ phaseDagM true true = -Complex.I) ∧
+    (sigmaX false false = 0 ∧ sigmaX false true = 1 ∧ sigmaX true false = 1 ∧ sigmaX true true = 0) ∧
+    (sigmaY false false = 0 ∧ sigmaY false true = -Complex.I ∧ sigmaY true false = Complex.I ∧ sigmaY true true = 0) ∧
+    (sigmaZ false false = 1 ∧ sigmaZ false true = 0 ∧ sigmaZ true false = 0 ∧ sigmaZ true true = -1) := by
+  refine ⟨rfl, rfl, rfl, rfl, rfl, rfl, rfl, rfl, rfl, invSqrt2_mul_self, ?_, ?_, ?_, ?_, ?_, ?_⟩ <;>
+    simp [hadM, phaseM, phaseDagM, sigmaX, sigmaY, sigmaZ]
+
+/-- **Every tableau update rule is conjugation by the gate's unitary.**  For every gate of `run_circuit`
+    (H, P, P†, X, Y, Z, I, CNOT, CZ) at every in-range position (control ≠ target), the gate matrix is unitary and
+    `U · P · U† = (row rule of transformation.py)(P)` for every signed Pauli row `P`, signs included, for every `n`. -/
+theorem gate_is_conjugation_by_its_unitary (n : Nat) (g : Gate) (hg : g.WF n) (p : PRow) :
+    gateMat n g * (gateMat n g)ᴴ = 1 ∧ (gateMat n g)ᴴ * gateMat n g = 1 ∧
+    gateMat n g * pauliMat n p * (gateMat n g)ᴴ = pauliMat n (g.act p) :=
+  ⟨(gate_unitary n g hg).1, (gate_unitary n g hg).2, gate_conj n g hg p⟩
+
+/-- the same for gate lists: the row-wise action of a circuit is conjugation by the product of the gate unitaries -/
+theorem circuit_is_conjugation_by_its_unitary (n : Nat) (c : List Gate) (hc : ∀ g ∈ c, g.WF n) (p : PRow) :
+    circMat n c * (circMat n c)ᴴ = 1 ∧
+    circMat n c * pauliMat n p * (circMat n c)ᴴ = pauliMat n (actCirc c p) :=
+  ⟨(circ_unitary n c hc).1, circ_conj n c hc p⟩
+
+/-- **Gate covariance of the stabilizer state**: updating the generator rows by the tableau rule is the Hilbert-space
+    evolution `ρ ↦ U ρ U†` (what the density-matrix backend computes), for single gates and for `run_circuit` -/
+theorem stabilizer_state_gate_covariance (T : STab) (g : Gate) (hg : g.WF T.n) :
+    gateMat T.n g * rho T.n T * (gateMat T.n g)ᴴ = rho T.n (T.applyGate g) := rho_applyGate T g hg
+
+theorem stabilizer_state_circuit_covariance (T : STab) (c : List Gate) (hc : ∀ g ∈ c, g.WF T.n) :
+    circMat T.n c * rho T.n T * (circMat T.n c)ᴴ = rho T.n (T.runCircuit c) := rho_runCircuit T c hc
+
+/-- for real, mutually commuting generators `ρ = ∏ (1 + P_i)/2` is an orthogonal projector -/
+theorem stabilizer_state_is_projector (T : STab) (hg : T.Good) :
+    rho T.n T * rho T.n T = rho T.n T ∧ (rho T.n T)ᴴ = rho T.n T := ⟨rho_idem T hg, rho_hermitian T hg⟩
+
+/-- … fixed by every element of the signed group generated by the rows: `S ρ = ρ` -/
+theorem stabilizer_state_fixed_by_group (T : STab) (hg : T.Good) (a : PRow) (ha : T.Spn a) :
+    pauliMat T.n a * rho T.n T = rho T.n T := span_mul_rho T hg a ha
+
+/-- **Gauge independence**: tableaux generating the same signed group have the same density matrix (so row swaps,
+    row sums, `canonical_form`, … do not change the state; `B.n = A.n` is part of `SpanEq`) -/
+theorem stabilizer_state_gauge_independent (A B : STab) (h : STab.SpanEq A B) (gA : A.Good) (gB : B.Good) :
+    rho A.n A = rho A.n B := rho_spanEq A B h gA gB
+
+/-! ### non-vacuity: the Bell pair -/
+
+/-- Bell pair `(|00⟩+|11⟩)/√2` with generators XX, ZZ -/
+def bellXX : STab :=
+  STab.ofRows 2 #[PRow.ofArrays #[true,true] #[false,false] false false,
+                  PRow.ofArrays #[false,false] #[true,true] false false]
+/-- the same state with generators −YY, ZZ -/
+def bellYY : STab :=
+  STab.ofRows 2 #[PRow.ofArrays #[true,true] #[true,true] true false,
+                  PRow.ofArrays #[false,false] #[true,true] false false]
+
+theorem good_of_check2 (t : STab) (hn : t.n = 2)
+    (h : (List.range 2).all (fun i => (t.row i).ip == false &&
+      (List.range 2).all fun k => PRow.sp 2 (t.row i) (t.row k) == false) = true) : t.Good := by
+  simp only [List.all_eq_true, List.mem_range, Bool.and_eq_true, beq_iff_eq] at h
+  constructor
+  · intro i hi; exact (h i (hn ▸ hi)).1
+  · intro i k hi hk; rw [hn]; exact (h i (hn ▸ hi)).2 k (hn ▸ hk)
+
+theorem bellXX_good : bellXX.Good := good_of_check2 _ rfl (by decide)
+theorem bellYY_good : bellYY.Good := good_of_check2 _ rfl (by decide)
+
+/-- XX, ZZ and −YY, ZZ generate the same group (−YY = XX·ZZ) -/
+theorem bell_generators_spanEq : STab.SpanEq bellXX bellYY := by
+  apply STab.spanEq_of_gens bellXX bellYY rfl
+  · intro i hi
+    have : i = 0 ∨ i = 1 := by have : i < 2 := hi; omega
+    rcases this with rfl | rfl
+    · exact InSpan.eqv _ _ (InSpan.mul _ _ (STab.spn_gen bellXX 0 (by decide)) (STab.spn_gen bellXX 1 (by decide)))
+        (beqOn_eqOn _ _ _ (by decide))
+    · exact InSpan.eqv _ _ (STab.spn_gen bellXX 1 (by decide)) (beqOn_eqOn _ _ _ (by decide))
+  · intro i hi
+    have : i = 0 ∨ i = 1 := by have : i < 2 := hi; omega
+    rcases this with rfl | rfl
+    · exact InSpan.eqv _ _ (InSpan.mul _ _ (STab.spn_gen bellYY 0 (by decide)) (STab.spn_gen bellYY 1 (by decide)))
+        (beqOn_eqOn _ _ _ (by decide))
+    · exact InSpan.eqv _ _ (STab.spn_gen bellYY 1 (by decide)) (beqOn_eqOn _ _ _ (by decide))
+
+example : (Gate.CNOT 0 1).WF bellXX.n ∧ (Gate.H 1).WF bellXX.n :=
+  ⟨⟨by decide, by decide, by decide⟩, (by decide : 1 < 2)⟩
+/-- hypotheses of `stabilizer_state_gauge_independent` hold for two different generating sets of the Bell pair -/
+example : rho 2 bellXX = rho 2 bellYY :=
+  stabilizer_state_gauge_independent bellXX bellYY bell_generators_spanEq bellXX_good bellYY_good
+/-- the Bell pair is `CNOT₀₁ H₀ |00⟩`: the tableau circuit run and the matrix conjugation agree -/
+example : circMat 2 [.H 0, .CNOT 0 1] * rho 2 (STab.zero 2) * (circMat 2 [.H 0, .CNOT 0 1])ᴴ = rho 2 bellXX := by
+  have h := stabilizer_state_circuit_covariance (STab.zero 2) [.H 0, .CNOT 0 1]
+    (by intro g hg
+        simp only [List.mem_cons, List.mem_nil_iff, or_false] at hg
+        rcases hg with rfl | rfl
+        · show 0 < 2; decide
+        · exact ⟨by decide, by decide, by decide⟩)
+  have e : rho 2 ((STab.zero 2).runCircuit [.H 0, .CNOT 0 1]) = rho 2 bellXX := by
+    apply rhoTo_congr 2 _ _ 2
+    intro i hi
+    have : i = 0 ∨ i = 1 := by omega
+    rcases this with rfl | rfl <;> exact beqOn_eqOn _ _ _ (by decide)
+  exact h.trans e
+/-- an anticommuting pair: X₀ and the Y₀Y₁ row -/
+example : sp 2 (Xq 0) (bellYY.row 0) = true := by decide
+
+/-! ### Kronecker structure: the bit-string matrices are graphiq's `np.kron` chains -/
+
+/-- `pauliMat (n+1) p = pauliMat n p ⊗ σ(x_n, z_n)` entrywise, where `σ` is the table of 2×2 Pauli matrices
+    (`1`, `sigmax()`, `sigmay()`, `sigmaz()`); by induction `pauliMat n p = i^ip (-1)^r σ₀ ⊗ … ⊗ σ_{n-1}` with qubit 0 the
+    left-most (most significant) Kronecker factor, the convention of `get_one_qubit_gate` -/
+theorem pauli_matrix_is_kronecker_product (n : Nat) (p : PRow) (a b : Bits (n + 1)) :
+    pauliMat (n + 1) p a b = pauliMat n p (initB a) (initB b) * sigma (p.x n) (p.z n) (lastB a) (lastB b) ∧
+    sigma false false = 1 ∧ sigma true false = sigmaX ∧ sigma true true = sigmaY ∧ sigma false true = sigmaZ :=
+  ⟨pauliMat_succ n p a b, sigma_ff, sigma_tf, sigma_tt, sigma_ft⟩
+
+/-- `oneQ` is `get_one_qubit_gate`: the 2×2 matrix at its site, identity factors elsewhere (`1 ⊗ u` for the last
+    qubit, `(gate on the first n qubits) ⊗ 1` otherwise); `ctrlQ` is `get_two_qubit_controlled_gate`'s
+    `1 + (1 - Z_c)(u_t - 1)/2` -/
+theorem gate_matrices_are_kronecker_products (n q c t : Nat) (hq : q < n) (hc : c < n) (hct : c ≠ t)
+    (u : Matrix Bool Bool ℂ) (a b : Bits (n + 1)) :
+    oneQ (n + 1) n u a b = (1 : Matrix (Bits n) (Bits n) ℂ) (initB a) (initB b) * u (lastB a) (lastB b) ∧
+    oneQ (n + 1) q u a b = oneQ n q u (initB a) (initB b) * (1 : Matrix Bool Bool ℂ) (lastB a) (lastB b) ∧
+    ctrlQ n c t u = 1 + (1 / 2 : ℂ) • ((1 - pauliMat n (Zq c)) * oneQ n t (u - 1)) :=
+  ⟨oneQ_succ_last n u a b, oneQ_succ_lower n q hq u a b, ctrlQ_eq_graphiq n c t hc hct u⟩
+
+/-! ### the state of a valid Clifford tableau is a pure state; measurement is projection -/
+
+/-- the all-`+Z` tableau (`StabilizerTableau(n)`, the stabilizer half of `CliffordTableau(n)`) is `|0…0⟩⟨0…0|` -/
+theorem ket0_state_is_zero_ket (n : Nat) (a b : Bits n) :
+    rho n (STab.ofTab (Tab.ket0 n)) a b = if a = (fun _ => false) ∧ b = (fun _ => false) then 1 else 0 := by
+  rw [rho_ket0]; exact rho_zero n a b
+
+open scoped ComplexOrder in
+/-- **Pure state.**  For a valid Clifford tableau the stabilizer half defines a density matrix (`ρ ≥ 0`, `tr ρ = 1`)
+    that is a rank-one projector in the sense `ρ² = ρ = ρ†`, `tr ρ = 1` (graphiq's `is_pure`): the destabilizer rows
+    witness the independence of the generators. -/
+theorem stabilizer_state_is_pure (t : Tab) (hv : t.Valid) :
+    Matrix.trace (rho t.n (STab.ofTab t)) = 1 ∧
+    rho t.n (STab.ofTab t) * rho t.n (STab.ofTab t) = rho t.n (STab.ofTab t) ∧
+    (rho t.n (STab.ofTab t))ᴴ = rho t.n (STab.ofTab t) ∧
+    (rho t.n (STab.ofTab t)).PosSemidef :=
+  have hg := ofTab_good t hv
+  ⟨rho_ofTab_trace t hv, rho_idem _ hg, rho_hermitian _ hg,
+   posSemidef_of_projector _ (rho_idem _ hg) (rho_hermitian _ hg)⟩
+
+/-- the rows of a valid tableau are a symplectic basis: a Pauli commuting with all 2n rows is trivial -/
+theorem valid_rows_are_symplectic_basis (t : Tab) (hv : t.Valid) (m : PRow)
+    (h : ∀ i, i < 2 * t.n → sp t.n (t.row i) m = false) : ∀ j, j < t.n → m.x j = false ∧ m.z j = false :=
+  valid_nondegenerate t hv m h
+
+/-- **Completeness of the deterministic rule** (was cited mathematics): if no stabilizer row has an X on `q`, the
+    scratch row of `z_measurement_gate` is exactly `±Z_q` -/
+theorem deterministic_scratch_row_is_Zq (t : Tab) (hv : t.Valid) (q : Nat) (hq : q < t.n) (hp : t.pivot q = none) :
+    SameBits t.n (t.measScratch q) (Zq q) := measScratch_bits t hv q hq hp
+
+/-- **Random branch = projective measurement.**  Valid tableau with real stabilizer rows, some stabilizer row has an X
+    on `q`.  With `Π_o = (1 + (-1)^o Z_q)/2`: `Π_o ρ Π_o = ½ · ρ(new tableau)` for the tableau returned by
+    `z_measurement_gate` with outcome `o` — the update rule computes the post-measurement state, each outcome has
+    probability `tr(Π_o ρ Π_o) = ½`; the new tableau again has real stabilizer rows (and is valid, §2). -/
+theorem measurement_random_is_projection (t : Tab) (hv : t.Valid) (hr : t.StabReal) (q p : Nat) (o : Bool)
+    (hq : q < t.n) (hp : t.pivot q = some p) :
+    proj t.n (Zq q o) * rho t.n (STab.ofTab t) * proj t.n (Zq q o)
+      = (1 / 2 : ℂ) • rho t.n (STab.ofTab (t.zMeasure q o).1) ∧
+    Matrix.trace (proj t.n (Zq q o) * rho t.n (STab.ofTab t) * proj t.n (Zq q o)) = 1 / 2 ∧
+    (t.zMeasure q o).1.StabReal := by
+  obtain ⟨h1, h2, h3⟩ := pivot_spec t q p hp
+  have e : t.zMeasure q o = (t.measRandom q p o, o, p) := by simp [zMeasure, hp]
+  rw [e]
+  exact ⟨measRandom_state t hv hr q p o hq h1 h2 h3, measRandom_prob t hv hr q p o hq h1 h2 h3,
+    measRandom_stabReal t hv hr q p o h1 h2⟩
+
+/-- **Deterministic branch = projective measurement.**  Valid tableau with real stabilizer rows, no stabilizer row has an
+    X on `q`.  With `s` the outcome reported by `z_measurement_gate`: `Z_q ρ = (-1)^s ρ`, so `Π_s ρ Π_s = ρ`
+    (probability 1, state and tableau unchanged) and `Π_{¬s} ρ = 0`. -/
+theorem measurement_deterministic_is_projection (t : Tab) (hv : t.Valid) (hr : t.StabReal) (q : Nat) (o : Bool)
+    (hq : q < t.n) (hp : t.pivot q = none) :
+    (t.zMeasure q o).1 = t ∧
+    pauliMat t.n (Zq q (t.zMeasure q o).2.1) * rho t.n (STab.ofTab t) = rho t.n (STab.ofTab t) ∧
+    proj t.n (Zq q (t.zMeasure q o).2.1) * rho t.n (STab.ofTab t) * proj t.n (Zq q (t.zMeasure q o).2.1)
+      = rho t.n (STab.ofTab t) ∧
+    proj t.n (Zq q (!(t.zMeasure q o).2.1)) * rho t.n (STab.ofTab t) = 0 := by
+  have e : t.zMeasure q o = (t, (t.measScratch q).r, 0) := by simp [zMeasure, hp]
+  rw [e]
+  exact ⟨rfl, measDet_state t hv hr q hq hp⟩
+
+/-- reality of the stabilizer rows holds for `CliffordTableau(n)` and is kept by every gate -/
+theorem stabilizer_rows_stay_real (n : Nat) (t : Tab) (g : Gate) (hr : t.StabReal) :
+    (Tab.ket0 n).StabReal ∧ (t.map g.act).StabReal := ⟨ket0_stabReal n, gate_stabReal t g hr⟩
+
+/-- **The gate operations of the Clifford-tableau API are unitary evolution of the state.**  For every gate `g` of
+    `run_circuit` (`t.map g.act` is `hGate`, `sGate`, `sdgGate`, `xGate`, `yGate`, `zGate`, `cnotGate`, `czGate` by
+    definition): `U_g ρ(t) U_g† = ρ(t after the gate)`; and `swap_gate` is conjugation by the permutation matrix that
+    exchanges the two bits. -/
+theorem tableau_gate_is_unitary_evolution (t : Tab) (g : Gate) (hg : g.WF t.n) (a b : Nat) (ha : a < t.n) (hb : b < t.n) :
+    gateMat t.n g * rho t.n (STab.ofTab t) * (gateMat t.n g)ᴴ = rho t.n (STab.ofTab (t.map g.act)) ∧
+    swapMat t.n a b * rho t.n (STab.ofTab t) * (swapMat t.n a b)ᴴ = rho t.n (STab.ofTab (t.swapGate a b)) ∧
+    swapMat t.n a b * (swapMat t.n a b)ᴴ = 1 ∧
+    (∀ p, swapMat t.n a b * pauliMat t.n p * (swapMat t.n a b)ᴴ = pauliMat t.n (PRow.swap a b p)) :=
+  ⟨rho_tab_gate t g hg, rho_tab_swap t a b ha hb, (swap_unitary t.n a b ha hb).1, swap_conj t.n a b ha hb⟩
+
+example (t : Tab) (q c tg : Nat) : t.map (Gate.H q).act = t.hGate q ∧ t.map (Gate.P q).act = t.sGate q ∧
+    t.map (Gate.CNOT c tg).act = t.cnotGate c tg ∧ t.map (Gate.CZ c tg).act = t.czGate c tg := ⟨rfl, rfl, rfl, rfl⟩
+
+/-! non-vacuity: the GHZ tableau `ghz3` of §5 (valid, signs −XXX, ZZI, −IZZ) -/
+
+theorem ghz3_stabReal : ghz3.StabReal := by
+  intro i h1 h2
+  have h1' : 3 ≤ i := h1
+  have h2' : i < 6 := h2
+  have : i = 3 ∨ i = 4 ∨ i = 5 := by omega
+  rcases this with rfl | rfl | rfl <;> rfl
+
+theorem ghz3_valid : ghz3.Valid := (isSymplectic_iff_valid ghz3).mp (by decide)
+
+/-- measuring qubit 0 of GHZ₃ is random (pivot = row 3): both outcomes have probability ½ -/
+example (o : Bool) : Matrix.trace (proj 3 (Zq 0 o) * rho 3 (STab.ofTab ghz3) * proj 3 (Zq 0 o)) = 1 / 2 :=
+  (measurement_random_is_projection ghz3 ghz3_valid ghz3_stabReal 0 3 o (by decide) (by decide)).2.1
+/-- after that measurement (outcome 1), measuring qubit 1 is deterministic -/
+example : ((ghz3.zMeasure 0 true).1.norm).pivot 1 = none ∧ ghz3.pivot 0 = some 3 := by decide
+example : Matrix.trace (rho 3 (STab.ofTab ghz3)) = 1 := (stabilizer_state_is_pure ghz3 ghz3_valid).1
 
 end Graphiq.C07
